@@ -122,14 +122,15 @@ import threading
 _GEN_LOCK = threading.Lock()
 
 
-def cached_gen(repo, features, verif, assume, reasons):
-    """extraction is deterministic in (/repo/src, vx, shim, contracts, features, assumed set): cache its output"""
+def cached_gen(repo, features, verif, assume, reasons, inline=None):
+    """extraction is deterministic in (/repo/src, vx, shim, contracts, features, assumed set, inline requests): cache its output"""
     with _GEN_LOCK:
-        return _cached_gen(repo, features, verif, assume, reasons)
+        return _cached_gen(repo, features, verif, assume, reasons, inline or {})
 
 
-def _cached_gen(repo, features, verif, assume, reasons):
-    key = hashlib.sha256(("%s|%s|%s" % (_inputs_hash(repo, verif), fs_name(features), ",".join(sorted(assume)))).encode()).hexdigest()[:24]
+def _cached_gen(repo, features, verif, assume, reasons, inline):
+    ikey = ";".join("%s<-%s" % (k, ",".join(sorted(v))) for k, v in sorted(inline.items()))
+    key = hashlib.sha256(("%s|%s|%s|%s" % (_inputs_hash(repo, verif), fs_name(features), ",".join(sorted(assume)), ikey)).encode()).hexdigest()[:24]
     path = os.path.join(verif, "build", "cache", "gen_%s.json" % key)
     if os.path.exists(path):
         try:
@@ -143,6 +144,7 @@ def _cached_gen(repo, features, verif, assume, reasons):
     g = Gen(repo, features, verif)
     g.assume = set(assume)
     g.assume_reasons = dict(reasons)
+    g.inline = {k: set(v) for k, v in inline.items()}
     text = g.assemble()
     os.makedirs(os.path.dirname(path), exist_ok=True)
     import uuid
@@ -151,6 +153,17 @@ def _cached_gen(repo, features, verif, assume, reasons):
                "fn_keys_with_body": sorted(g.fn_keys_with_body)}, open(tmp, "w"))
     os.replace(tmp, path)
     return g, text
+
+
+def _is_file_fn(repo, features, key, name):
+    """is `name` a fn with a body in the source file of the function with this key?"""
+    from .gen import Source
+    from .inline import file_fns
+    f = key.split("::")[0]
+    try:
+        return name in file_fns(Source(repo, features).items.get(f, []))
+    except (Unsupported, LexError):
+        return False
 
 
 def verify_feature_set(repo, verif, features, use_cache=True, vacuity=True, extra=(), tag=""):
@@ -165,12 +178,13 @@ def verify_feature_set(repo, verif, features, use_cache=True, vacuity=True, extr
     fcntl.flock(lock, fcntl.LOCK_EX)
     try:
         assume, reasons = set(), {}
+        inline, inline_tried = {}, set()
         last = None
-        for attempt in range(5):
+        for attempt in range(8):
             res = {"features": sorted(features), "name": name}
             t0 = time.time()
             try:
-                g, text = cached_gen(repo, features, verif, assume, reasons)
+                g, text = cached_gen(repo, features, verif, assume, reasons, inline)
             except (Unsupported, LexError) as e:
                 res.update(status="undecided", reason="extraction: %s" % e, failures=[], labels={}, wall=time.time() - t0)
                 return res
@@ -179,9 +193,12 @@ def verify_feature_set(repo, verif, features, use_cache=True, vacuity=True, extr
             cache = os.path.join(verif, "build", "cache", key + ".json")
             r = _verify_locked(g, text, res, key, cache, use_cache, vacuity, extra, tag, out_dir, t0)
             r["assumed_functions"] = {k: reasons.get(k, "") for k in sorted(assume)}
+            r["inlined_helpers"] = {k: sorted(v) for k, v in sorted(inline.items()) if k not in assume}
             last = r
             # Verus rejected the text inside one extracted function: assume that function's contract and retry
             new = set()
+            retry = False
+            this_round = set()
             if r["status"] == "undecided" and r.get("hard_errors"):
                 franges = r.get("function_ranges", [])
                 for he in r["hard_errors"]:
@@ -191,9 +208,21 @@ def verify_feature_set(repo, verif, features, use_cache=True, vacuity=True, extr
                         if ln and a_ <= ln <= b_ and (best is None or (b_ - a_) < (best[1] - best[0])):
                             best = (a_, b_, nm)
                     if best and best[2] in g.fn_keys_with_body and best[2] not in assume:
+                        # rule R12: the function calls a same-file helper that has no contract and is not extracted:
+                        # inline the helper (once); only if that does not help is the function's contract assumed
+                        mm = re.search(r"(?:no method named|cannot find function|no function or associated item named) `(\w+)`",
+                                       he.get("message", ""))
+                        if mm and (best[2], mm.group(1)) in this_round:
+                            continue
+                        if mm and (best[2], mm.group(1)) not in inline_tried and _is_file_fn(repo, features, best[2], mm.group(1)):
+                            this_round.add((best[2], mm.group(1)))
+                            inline_tried.add((best[2], mm.group(1)))
+                            inline.setdefault(best[2], set()).add(mm.group(1))
+                            retry = True
+                            continue
                         new.add(best[2])
                         reasons[best[2]] = "verus rejected the extracted text: %s" % he.get("message", "")[:200]
-            if not new:
+            if not new and not retry:
                 return r
             assume |= new
         return last
